@@ -34,7 +34,15 @@ class ClientSubRun:
         timecode = bool(ch.pick("cfg.timecode", 2))
         lvl = ch.weighted("cfg.loglevel", [(4, logging.ERROR), (1, logging.INFO), (1, logging.DEBUG)])
         nuni = 3 + ch.pick("cfg.nuni", 3)
-        self.uni = UNIVERSE[:nuni]
+        # a third of the runs use the ids of the manager's own status messages (FAILED_MESSAGE, MESSAGE_TRAFFIC,
+        # ACTIVE_CLIENTS, CLIENT_INFO, CLIENT_CLOSED, TIMING_MESSAGE) or a mix of both as the universe
+        uk = ch.weighted("cfg.universe", [(4, "user"), (1, "status"), (1, "mixed")])
+        if uk == "user":
+            self.uni = UNIVERSE[:nuni]
+        elif uk == "status":
+            self.uni = [33, 80, 8, 30, 31, 32][:nuni + 1]
+        else:
+            self.uni = [1000, 33, 1001, 80, 8][:nuni]
         self.res.config = dict(timecode=timecode, loglevel=lvl, universe=self.uni)
         self.w = World(ch, timecode=timecode, log_level=lvl, send_msg_timing=bool(ch.pick("cfg.timing", 2)),
                        p_notwritable=(0, 1))
@@ -58,6 +66,9 @@ class ClientSubRun:
         self.drain()
         if self.twin is not None:
             self.drain(self.twin)
+        if ch.flag("cfg.stall", 1, 3):
+            # from now on the client's own socket is occasionally unable to take data for a while
+            self.w.p_peer_stall = (1, 10)
 
     def drain(self, who=None):
         """parse and empty what sits on the client's socket; returns delivered probe types"""
